@@ -26,12 +26,17 @@ import tempfile
 import time
 import traceback
 
-GEN_DEPS = []
+GEN_DEPS = ["ArchiveFile._test_attribute", "ArchiveFile._get_unix_extension", "ArchiveFile.archivable",
+            "ArchiveFile.is_directory", "ArchiveFile.readonly", "ArchiveFile.is_symlink", "ArchiveFile.is_junction",
+            "ArchiveFile.is_socket", "ArchiveFile.posix_mode", "ArchiveFile.st_fmt"]
 LEVEL = "proof"
 TRUSTED_BASE = [
     "Coq 8.16.1 kernel, vm_compute; FileTime.v: Flocq 4.1.0 binary64 and the standard library's classical reals "
     "(axioms sig_forall_dec, sig_not_dec, classic, functional_extensionality_dep); Mode.v/ModeProofs.v/Walk.v closed",
     "extraction (ExtrOcamlBasic only) + ocaml/driver.ml for running the model",
+    "tools/translate.py + theories/PyPrims.v, PyStr.v, PyStat.v (semantics of the Python primitives and of the stat module; "
+    "differential-tested here by harness/prims.py): the C02_gen_* theorems are about coq/gen/AttrDecoders.v, regenerated "
+    "from class ArchiveFile of py7zr/py7zr.py on this run",
     "theories/Mode.v as transcription of _make_file_info, ArchiveFile, _writeall, _find_link_target, "
     "_sanitize_archive_arcname, _extract, _extract_single (correspondence checked here on every run)",
     "Linux VFS semantics of mkdir/open/symlink/chmod/utime as summarised by Mode.alter and the f_* functions",
@@ -1094,6 +1099,85 @@ def unpriv_worker(arg):
     return {"ran": True, "uid": uid, "note": "ran as uid %d" % uid, "results": results}
 
 
+def check_translation(ctx, rep, rng, tier):
+    """translation validation: the ArchiveFile decoders generated from the current py7zr/py7zr.py (coq/gen/AttrDecoders.v,
+    extracted) against the Python properties they were generated from; and the primitives against CPython"""
+    import vlib
+    from harness import prims
+    from py7zr.py7zr import ArchiveFile
+    model = ctx["model"]
+    if model is None or "gen_attr_rows" not in vlib.fn_table():
+        return
+    prims.check_prims(ctx, rep)
+    if model.call("gen_is_directory", [0x10]) != [0, 1]:
+        return   # not the executable that contains the generated functions (its build failure is reported by verif.py)
+    vals = [None, 0, 1, 0x10, 0x20, 0x400, 0x410, 0x8000, 0x8010, 0x8020, 0x8400, 0xFFFFFFFF, 0x7FFFFFFF, 0x80000000]
+    vals += [1 << i for i in range(50)] + [(1 << i) | 0x8000 for i in range(50)]
+    for fmt in range(16):
+        for perm in (0, 0o644, 0o755, 0o7777, 0o4000):
+            for low in (0, 0x10, 0x20, 0x400, 0x410, 0x8000, 0x8010, 0x8420, 0x8001, 0x1, 0x8430):
+                vals.append(((fmt << 12 | perm) << 16) | low)
+    for _ in range(3000 if tier == "quick" else 100000):
+        vals.append(rng.getrandbits(32))
+    for _ in range(200):
+        vals.append(rng.getrandbits(rng.choice([33, 40, 47, 48, 49, 64])))
+
+    def py(f):
+        try:
+            return [0, f()]
+        except (OverflowError, TypeError, ValueError) as e:
+            return [1, type(e).__name__]
+
+    def canon(r, kind):
+        if r[0] != 0:
+            return [1, None]
+        if kind == "bool":
+            return [0, r[1] == 1]
+        return [0, r[1][0] if r[1] else None]
+
+    names = ["is_directory", "is_symlink", "is_junction", "is_socket", "readonly", "posix_mode", "st_fmt", "archivable"]
+    kinds = ["bool", "bool", "bool", "bool", "bool", "opt", "opt", "bool"]
+    cnt = 0
+    for off in range(0, len(vals), 512):
+        blk = vals[off:off + 512]
+        rows = model.call("gen_attr_rows", [[] if v is None else [v] for v in blk])
+        for v, row in zip(blk, rows):
+            af = ArchiveFile(0, {"attributes": v})
+            for i, (nm, kd) in enumerate(zip(names, kinds)):
+                want = py(lambda: getattr(af, nm))
+                got = canon(row[i], kd)
+                cnt += 1
+                if got[0] != want[0] or (want[0] == 0 and got[1] != want[1]):
+                    rep.violation("the function translated from ArchiveFile.%s disagrees with the Python on attributes %r: "
+                                  "generated %r, Python %r" % (nm, v, got, want),
+                                  {"kind": "translation", "fn": nm, "attributes": v}, concrete=False,
+                                  match_keys={"kind": "translation", "fn": nm})
+                    return
+            want = py(af._get_unix_extension)
+            got = canon(row[8], "opt")
+            cnt += 1
+            if got[0] != want[0] or (want[0] == 0 and got[1] != want[1]):
+                rep.violation("the function translated from ArchiveFile._get_unix_extension disagrees with the Python on "
+                              "attributes %r: generated %r, Python %r" % (v, got, want),
+                              {"kind": "translation", "fn": "_get_unix_extension", "attributes": v}, concrete=False,
+                              match_keys={"kind": "translation", "fn": "_get_unix_extension"})
+                return
+    for v in vals[:400]:
+        for bit in (0, 1, 0x10, 0x410, 0x8000, 0xFFFF0000, rng.getrandbits(32)):
+            af = ArchiveFile(0, {"attributes": v})
+            want = py(lambda: af._test_attribute(bit))
+            got = canon(model.call("gen_test_attribute", [[] if v is None else [v], bit]), "bool")
+            cnt += 1
+            if got != want:
+                rep.violation("the function translated from ArchiveFile._test_attribute disagrees with the Python on (%r, %r): "
+                              "generated %r, Python %r" % (v, bit, got, want),
+                              {"kind": "translation", "fn": "_test_attribute", "attributes": v, "bit": bit}, concrete=False,
+                              match_keys={"kind": "translation", "fn": "_test_attribute"})
+                return
+    rep.extra["translation_validation_cases"] = cnt
+    rep.count(("translation", cnt), nontrivial=True, n=cnt)
+
+
 def run(ctx):
     rep, tier = ctx["rep"], ctx["tier"]
     rng = random.Random(ctx["seed"])
@@ -1103,6 +1187,12 @@ def run(ctx):
     if ctx["model"] is None:
         explore(ctx, rep, rng, tier)
         return
+    try:
+        check_translation(ctx, rep, random.Random(ctx["seed"] ^ 0x7A11), tier)
+    except Exception as e:  # noqa
+        rep.violation("check_translation raised %s: %s" % (type(e).__name__, e),
+                      {"kind": "exception", "part": "check_translation", "trace": traceback.format_exc()[-1500:]},
+                      concrete=False, match_keys={"kind": "exception", "part": "check_translation"})
     corr_attributes(ctx, rep, random.Random(rng.getrandbits(64)), tier)
     corr_filetime(ctx, rep, random.Random(rng.getrandbits(64)), tier)
     corr_sort(ctx, rep, random.Random(rng.getrandbits(64)), tier)
